@@ -340,3 +340,118 @@ def gen_zset_cmd(rng, m, db):
                        b"ZINCRBY", b"ZPOPMIN"])
     n = rng.choice([0, 1, 6])
     return [name] + [key(rng) for _ in range(n)]
+
+
+# --------------------------------------------------------------------------- C15 streams
+U64 = (1 << 64) - 1
+SKEYS = [b"s1", b"s2", b"k1", b"\x00\xffbin"]
+SFIELDS = [b"f", b"g", b"", b"\x00", b"field with space", b"cr\r\n"]
+
+
+def _stream_ids(m, db, k):
+    e = m.get(db, k)
+    if e is None or e.t != "stream":
+        return [], (0, 0)
+    return e.v.ids(), e.v.last
+
+
+def _fmt(i):
+    return b"%d-%d" % i
+
+
+def _id_near(rng, ids, last):
+    """An ID placed below / on / between / above the stored ones."""
+    pool = [(0, 0), (0, 1), (1, 0), last, (last[0], min(U64, last[1] + 1)), (min(U64, last[0] + 1), 0),
+            (U64, U64), (U64, 0), (last[0], U64)]
+    if ids:
+        i = rng.choice(ids)
+        pool += [i, i, (i[0], max(0, i[1] - 1)), (i[0], min(U64, i[1] + 1)), (max(0, i[0] - 1), U64), ids[0], ids[-1]]
+    return rng.choice(pool)
+
+
+def gen_stream_cmd(rng, m, db):
+    c = rng.choice(["XADD*", "XADD*", "XADD", "XADD", "XADD", "XLEN", "XRANGE", "XRANGE", "XREVRANGE", "XREVRANGE",
+                    "XREAD", "XREAD", "XDEL", "XDEL", "XTRIM", "TYPE", "DEL", "ARITY", "BADID"])
+    sk = lambda: key(rng, m, db, "stream", 0.0) if rng.random() < 0.12 else rng.choice(SKEYS[:2] if rng.random() < 0.85 else SKEYS)
+    k = sk()
+    ids, last = _stream_ids(m, db, k)
+
+    def fields():
+        fs = rng.sample(SFIELDS, rng.randrange(1, 4))
+        out = []
+        for f in fs:
+            out += [f, value(rng) if rng.random() < 0.3 else b"v%d" % rng.randrange(1000)]
+        return out
+    if c == "XADD*":
+        return [b"XADD", k, b"*"] + fields()
+    if c == "XADD":
+        r = rng.random()
+        if r < 0.45:
+            nid = (last[0], last[1] + 1) if last[1] < U64 and rng.random() < 0.5 else (min(U64, last[0] + rng.choice([1, 1, 2, 10])), rng.choice([0, 0, 1, 5]))
+        elif r < 0.55:
+            nid = last                                   # equal
+        elif r < 0.7:
+            nid = _id_near(rng, ids, last)               # anywhere
+        elif r < 0.78:
+            import time as _t
+            nid = (int(_t.time() * 1000) + rng.choice([10 ** 6, 10 ** 9]), 0)   # ahead of the wall clock
+        elif r < 0.84:
+            nid = (last[0] + 1 if last[0] < U64 else U64, U64)                  # sequence edge
+        elif r < 0.88:
+            nid = (U64, rng.choice([0, U64 - 1, U64]))                          # top of the ID space
+        else:
+            nid = (0, 0) if rng.random() < 0.3 else (0, rng.randrange(1, 3))
+        a = [b"XADD", k, _fmt(nid)] + fields()
+        if rng.random() < 0.03:
+            a.append(b"dangling")
+        return a
+    if c == "XLEN":
+        return [b"XLEN", k]
+    if c in ("XRANGE", "XREVRANGE"):
+        lo = b"-" if rng.random() < 0.3 else _fmt(_id_near(rng, ids, last))
+        hi = b"+" if rng.random() < 0.3 else _fmt(_id_near(rng, ids, last))
+        a = [c.encode(), k] + ([lo, hi] if c == "XRANGE" else [hi, lo])
+        if rng.random() < 0.15 and a[2] not in (b"-", b"+") and a[3] not in (b"-", b"+"):
+            a[2], a[3] = a[3], a[2]                      # reversed bounds
+        if rng.random() < 0.4:
+            a += [rng.choice([b"COUNT", b"count"]), rng.choice([b"1", b"2", b"3", b"10", b"1000"])]
+        return a
+    if c == "XREAD":
+        a = [b"XREAD"]
+        if rng.random() < 0.4:
+            a += [b"COUNT", rng.choice([b"1", b"2", b"5", b"100"])]
+        nk = rng.choice([1, 1, 2])
+        ks = [sk() for _ in range(nk)]
+        a.append(b"STREAMS")
+        a += ks
+        for kk in ks:
+            i2, l2 = _stream_ids(m, db, kk)
+            a.append(b"$" if rng.random() < 0.1 else _fmt(_id_near(rng, i2, l2)))
+        return a
+    if c == "XDEL":
+        n = rng.randrange(1, 4)
+        return [b"XDEL", k] + [_fmt(_id_near(rng, ids, last)) for _ in range(n)]
+    if c == "XTRIM":
+        n = rng.choice([0, 1, 2, max(0, len(ids) - 1), len(ids), len(ids) + 1, 1000])
+        a = [b"XTRIM", k, b"MAXLEN"]
+        r = rng.random()
+        if r < 0.3:
+            a.append(b"~")
+        elif r < 0.5:
+            a.append(b"=")
+        a.append(b"%d" % n)
+        return a
+    if c == "TYPE":
+        return [b"TYPE", k]
+    if c == "DEL":
+        return [b"DEL", k] if rng.random() < 0.3 else [b"XLEN", k]
+    if c == "BADID":
+        bad = rng.choice([b"abc", b"1-2-3", b"1.5-0", b"x-1", b"1-x", b"1_0"])
+        which = rng.choice(["XADD", "XRANGE", "XDEL"])
+        if which == "XADD":
+            return [b"XADD", k, bad, b"f", b"v"]
+        if which == "XRANGE":
+            return [b"XRANGE", k, bad, b"+"]
+        return [b"XDEL", k, bad]
+    name = rng.choice([b"XADD", b"XLEN", b"XRANGE", b"XREVRANGE", b"XDEL", b"XTRIM", b"XREAD"])
+    return [name] + [k for _ in range(rng.choice([0, 1, 2]))]
